@@ -5,7 +5,7 @@
 From Sophia.C06 Require Import Proofs.
 
 (* (1) canonical N-Quads: the escape table of _cnq.rs `nq` IS the table of the canonical form
-   (ECHAR for BS HT LF FF CR " \, upper-case \uXXXX for the other C0 controls and DEL, everything
+   (ECHAR for BS HT LF FF CR, the double quote and the backslash, upper-case \uXXXX for the other C0 controls and DEL, everything
    else verbatim), and terms / lines / first-degree lines are written as specified *)
 Check (esc_char_is_canonical : forall c : N, esc_char c = cnq_char c).
 Check (escape_table_listing :
@@ -42,6 +42,29 @@ Check (later_errors : forall H v fuel df pl d e,
 Check (b2h_memo : forall H (b2q : b2q_t) b qs,
   bt_get b2q b = Some qs -> bt_get (step3_b2h H b2q) b = Some (h1d H b qs)).
 
+(* (5) the implementation (after the repairs) computes what the specification defines, for every
+   hash function: same canonical document, same issued identifiers, with Heap's order for "each
+   permutation" and label order for "each key of the blank node to quads map".  [false] = the
+   specification without step 5.2.1 of section 4.4 (which the implementation does not have);
+   fuel exhaustion corresponds to fuel exhaustion. *)
+Check (impl_equals_spec_without_5_2_1 : forall H fuel d,
+  Forall wf_quad d ->
+  match normalize_with H (mkVar true true) fuel None None d with
+  | Ok (bytes, issued) => spec_model H heap_perms label_order false d fuel = SpOk (bytes, issued)
+  | Err EFuel => spec_model H heap_perms label_order false d fuel = SpFuel
+  | Err _ => True
+  end).
+Check (impl_ok_is_spec : forall H fuel d bytes issued,
+  Forall wf_quad d ->
+  normalize_with H (mkVar true true) fuel None None d = Ok (bytes, issued) ->
+  spec_model H heap_perms label_order false d fuel = SpOk (bytes, issued)).
+(* ingredients worth reading on their own: first-degree hashes, the repaired smaller_path *)
+Check (first_degree_agrees : forall H d b,
+  forallb sp_supported d = true -> In b (bnodes d) ->
+  first_degree H true d b = Some (sp_h1 H d b)).
+Check (skip_eq : forall chosen path,
+  negb (is_nil chosen) && prune_rule true chosen path = sp_skip chosen path).
+
 (* (6) the code before the repairs does NOT conform (concrete datasets, concrete toy hashes) *)
 Check (b2q_prefix_refuted :
   differs_from_spec (mkVar false true) toyL w27 20 = true
@@ -64,5 +87,9 @@ Print Assumptions step2_supported.
 Print Assumptions step2_unsupported.
 Print Assumptions later_errors.
 Print Assumptions b2h_memo.
+Print Assumptions impl_equals_spec_without_5_2_1.
+Print Assumptions impl_ok_is_spec.
+Print Assumptions first_degree_agrees.
+Print Assumptions skip_eq.
 Print Assumptions b2q_prefix_refuted.
 Print Assumptions prune_prefix_refuted.
